@@ -513,3 +513,19 @@ Proof.
   - exists (Sh 1 [1; 7]). vm_compute. repeat split; auto.
     intros [H|[]]. discriminate.
 Qed.
+
+(* ---------- CreateShardGroup twice ---------- *)
+
+Lemma create_shard_group_idempotent auto d ex ex' idx term idx' term' dbn pol t :
+  reachable auto d -> (- (c06_max_nano_time + 2) <= t <= c06_max_nano_time)%Z ->
+  let r1 := apply auto ex d idx term (CCreateShardGroup dbn pol t) in
+  snd r1 = ENone ->
+  apply auto ex' (fst r1) idx' term' (CCreateShardGroup dbn pol t) = (stamp (fst r1) idx' term', ENone).
+Proof.
+  intros R Ht r1 E. pose proof (reachable_Inv _ _ R) as I. unfold r1, apply in *. cbn [exec] in *.
+  destruct (create_shard_group d dbn pol t) as [d1|e] eqn:E1; cbn [fst snd] in *;
+    [|subst e; exfalso; apply (exec_err_not_none auto ex d (CCreateShardGroup dbn pol t)); exact E1].
+  assert (C : Covered d1 dbn pol t) by (eapply create_shard_group_Covered; eauto; lia).
+  assert (C' : Covered (stamp d1 idx term) dbn pol t) by exact C.
+  rewrite (Covered_noop _ _ _ _ C'). reflexivity.
+Qed.
